@@ -44,10 +44,16 @@ func loadKeys() openpgp.EntityList {
 	return keys
 }
 
-// keyring "n" = nil, "e" = empty, otherwise the digits are indexes into the generated entities
+// keyring "n" = nil, "e" = empty (non-nil slice), "z" = empty (nil slice behind a non-nil pointer), otherwise the digits are indexes into the generated entities
 func keyringOf(spec string) *openpgp.EntityList {
 	if spec == "n" {
 		return nil
+	}
+	if spec == "z" {
+		// a keyring that IS supplied but holds nothing, as a zero-value EntityList (what ReadKeyRing gives for an empty
+		// file): the pointer is non-nil, the slice behind it is nil
+		var zero openpgp.EntityList
+		return &zero
 	}
 	el := openpgp.EntityList{}
 	if spec != "e" {
